@@ -338,7 +338,15 @@ pub fn run(ctx: &Ctx, rep: &mut Report) {
                             t = Tok::new(&world.dict, Mode::C);
                         }
                     }
-                    Err(_) => t = Tok::new(&world.dict, Mode::C),
+                    Err(p) => {
+                        // the same text on a new tokenizer tells whether the panic comes from what was analysed before
+                        t = Tok::new(&world.dict, Mode::C);
+                        if let Ok(Ok(())) = guard(|| t.run(&full)) {
+                            if t.normalized == e3 {
+                                rep.violation("normalisation_stack", &p.site, &format!("input {:?}: a new tokenizer rewrites it as specified, the tokenizer that had analysed other texts before panics: {}", clip(&full, 80), p.msg), "", scen(&full, "stack"));
+                            }
+                        }
+                    }
                 }
             }
         }
